@@ -184,7 +184,7 @@ func steeredMapInputs(c *mon.Ctx) (us, xs []steeredInput) {
 	}
 
 	targets := gen.StoredTargets(p)
-	strideT := c.N(1, 1)
+	strideT := c.Stride()
 
 	for ti := int(c.Seed % uint64(strideT)); ti < len(targets); ti += strideT {
 		for _, which := range []string{"u2", "tv1", "tv2", "tv3", "tv6"} {
